@@ -265,7 +265,13 @@ func c03Payload(src string) string {
 		}
 		tl = append(tl, s)
 	}
-	run := c03Exec(src, true)
+	run := c03Run{floats: map[uint64]bool{}, regex: map[[2]string]bool{}}
+	func() {
+		// a panic of the real code while the tables are collected is not the generator's business:
+		// the case is executed again (in Run) where it is reported as PANIC
+		defer func() { recover() }()
+		run = c03Exec(src, true)
+	}()
 	for _, f := range c03EnvFloats {
 		run.floats[math.Float64bits(f)] = true
 	}
@@ -305,6 +311,14 @@ func init() {
 		Run: func(payload string) string {
 			src := unhx(strings.SplitN(payload, " ", 2)[0])
 			r := c03Exec(src, false)
+			switch {
+			case r.tree == "PARSEERR":
+				CountRun("parse error")
+			case strings.HasPrefix(r.outcome, "E "):
+				CountRun("runtime error " + strings.Fields(r.outcome)[1])
+			default:
+				CountRun("value")
+			}
 			return r.tree + " " + r.outcome
 		},
 		Tool: c03Tool,
@@ -655,16 +669,36 @@ func c03Gen(g *Gen) {
 			}
 		}
 	}
-	// operator triples (thorough: all; quick: a random sample)
-	nTriples := 3000
+	// all operator triples without brackets (quick: one operand quadruple each, thorough: four)
+	nQuad := 1
 	if g.Thorough() {
-		nTriples = 60000
+		nQuad = 4
 	}
-	for i := 0; i < nTriples; i++ {
-		t := triples[r.Intn(len(triples))]
-		d := c03Reps[r.Intn(6)]
-		src := t[0] + " " + c03BinOps[r.Intn(19)] + " " + t[1] + " " + c03BinOps[r.Intn(19)] + " " + t[2] + " " + c03BinOps[r.Intn(19)] + " " + d
-		emit("triple", src)
+	for _, o1 := range c03BinOps {
+		for _, o2 := range c03BinOps {
+			for _, o3 := range c03BinOps {
+				for k := 0; k < nQuad; k++ {
+					t := triples[r.Intn(len(triples))]
+					d := c03Reps[r.Intn(6)]
+					emit("triple", t[0]+" "+o1+" "+t[1]+" "+o2+" "+t[2]+" "+o3+" "+d)
+				}
+			}
+		}
+	}
+	// malformed stream: random token sequences on one line (no identifiers: calls and accesses are
+	// outside the fragment); mostly parse errors, exercising the loop's failure paths
+	soup := []string{"1", "2", `"a"`, "true", "null", "(", ")", "[", "]", ",", "+", "-", "*", "<", "==", "and", "or", "not", "in", "%", "like"}
+	nSoup := 2500
+	if g.Thorough() {
+		nSoup = 30000
+	}
+	for i := 0; i < nSoup; i++ {
+		n := 1 + r.Intn(6)
+		var ts []string
+		for k := 0; k < n; k++ {
+			ts = append(ts, soup[r.Intn(len(soup))])
+		}
+		emit("token-soup", strings.Join(ts, " "))
 	}
 	// assignment is loosest
 	for _, o := range c03BinOps {
@@ -677,7 +711,7 @@ func c03Gen(g *Gen) {
 		emit("assign", "r := "+q+" true and false")
 	}
 	// random trees to depth 6, random parentheses, random layout
-	nRandom := 6000
+	nRandom := 9000
 	if g.Thorough() {
 		nRandom = 200000
 	}
@@ -767,6 +801,12 @@ func c03RunArg(file *ast.File, name string) (bool, int, error) {
 				return true, 0, nil
 			}
 		case *ast.BinaryExpr:
+			if x.Op == token.SUB {
+				if lit, ok := x.Y.(*ast.BasicLit); ok && isSelfBinding(x.X) {
+					n, err := strconv.Atoi(lit.Value)
+					return true, -n, err
+				}
+			}
 			if x.Op == token.ADD {
 				if lit, ok := x.Y.(*ast.BasicLit); ok && isSelfBinding(x.X) {
 					n, err := strconv.Atoi(lit.Value)
@@ -903,7 +943,14 @@ func c03Extract(args []string) int {
 		return ".other"
 	}, ".other")
 	col("node", "String", func(e c03Entry) string { return strconv.Quote(strings.Trim(e.node, "\"")) }, "\"?\"")
-	sb.WriteString(fmt.Sprintf("def table : Table :=\n  { binding := binding, nud := nud, led := led, node := node,\n    prefixExtra := %d, infixExtra := %d, innerBinding := %d, listBinding := %d }\n\nend Ecal.Gen.C03\n", preN, inN, innerN, listN))
+	plus := func(n int) int {
+		if n > 0 {
+			return n
+		}
+		return 0
+	}
+	sb.WriteString(fmt.Sprintf("def table : Table :=\n  { binding := binding, nud := nud, led := led, node := node,\n    prefixExtra := %d, prefixSub := %d, infixExtra := %d, infixSub := %d, innerBinding := %d, listBinding := %d }\n\nend Ecal.Gen.C03\n",
+		plus(preN), plus(-preN), plus(inN), plus(-inN), innerN, listN))
 	os.MkdirAll(filepath.Dir(args[0]), 0755)
 	os.Remove(args[0])
 	if err := os.WriteFile(args[0], []byte(sb.String()), 0644); err != nil {
